@@ -499,7 +499,7 @@ CHUNKS_FUNCS = ["alpha_g_detector::padwing::<PwbV2Packet as TryFrom<Vec<Chunk>>>
 # the concatenated payload reaches the slice decoder through the heap, where CBMC no longer sees the (zero) channel masks as
 # constants: give the decoder's mask scans and channel loop the 1 iteration a zero mask needs - the unwinding assertions
 # make the solver prove that this is enough
-C04_LOOPS = [("BoardId", 73), ("c04::reassembly", 40), ("memcmp", 8), ("ChunksExact", 6), ("rfold", 2),
+C04_LOOPS = [("BoardId", 73), ("c04::reassembly", 66), ("memcmp", 8), ("ChunksExact", 6), ("rfold", 2),
              ("TryFromRShE8try_from.", 2)]
 def octal(seq):
     return sum(d << (3 * i) for i, d in enumerate(seq))
@@ -514,22 +514,26 @@ def c04(n, ids, lens, sched, kind, klass="core", est=900, lite=False):
            "short": ["well-formed-set-bad-payload", "faulty-set"], "fault": ["faulty-set"]}[kind]
     add(name=name, prop="C04", also=["C01"], crate="det",
         expr="crate::c04::reassembly%s::<%d, %d, %d>" % ("_lite" if lite else "", n, octal(ids), b64(lens)),
-        unwind=12, unwindset=C04_LOOPS, cap_s=4000 if not lite else 800, mem_gb=14, est_s=est, family="reassembly_" + kind.replace("short", "valid"),
+        unwind=12, unwindset=C04_LOOPS, cap_s=4000 if not lite else 840, mem_gb=14, est_s=est, family="reassembly_" + kind.replace("short", "valid"),
         funcs=CHUNKS_FUNCS, witnesses=wit, sched=sched, klass=klass,
         params={"chunks": n, "arrival_order_of_ids": list(ids), "payload_lengths": list(lens),
                 "symbolic": "board (2 real boards), chip, end-of-message flag, counters, payload bytes"})
+# single-chunk lists (no sorting work): end-of-message and missing-id rules, cheap enough for the quick tier
+c04(1, (0,), (56,), "always", "valid", est=200, lite=True)
+c04(1, (1,), (56,), "always", "fault", est=200, lite=True)
+c04(1, (0,), (56,), "thorough", "valid", est=400, klass="best")
 for n in (2, 3, 4):
     base = LEN_BY_ID[n]
     for perm in _it.permutations(range(n)):
         lens = tuple(base[i] for i in perm)
         c04(n, perm, lens, "thorough", "valid", est=900 if n < 4 else 1500, klass="best")
         if n == 2:
-            c04(n, perm, lens, "always" if perm == (1, 0) else "pool", "valid", est=400, lite=True)
+            c04(n, perm, lens, "always" if perm == (1, 0) else "pool", "valid", est=700, lite=True, klass="best")
 # duplicated / missing ids (every arrival order of each faulty multiset, n = 2, 3)
 for ids in ((0, 0), (1, 1), (0, 2), (1, 2), (0, 7)):
     for perm in sorted(set(_it.permutations(ids))):
         c04(2, perm, (28, 28), "thorough", "fault", klass="best")
-        c04(2, perm, (28, 28), "always" if perm == (0, 0) else "pool", "fault", est=400, lite=True)
+        c04(2, perm, (28, 28), "always" if perm == (0, 0) else "pool", "fault", est=700, lite=True, klass="best")
 for ids in ((0, 1, 1), (0, 0, 2), (0, 1, 3), (1, 2, 3), (0, 2, 2), (0, 0, 0)):
     for perm in sorted(set(_it.permutations(ids))):
         c04(3, perm, (20, 20, 16), "thorough", "fault", klass="best")
@@ -538,7 +542,7 @@ for by_id in ((20, 16, 16), (16, 20, 16), (20, 17, 16), (18, 20, 16), (20, 19, 1
     for perm in _it.permutations(range(3)):
         c04(3, perm, tuple(by_id[i] for i in perm), "thorough", "fault", klass="best")
         if by_id == (20, 17, 16):
-            c04(3, perm, tuple(by_id[i] for i in perm), "always" if perm == (1, 2, 0) else "pool", "fault", est=500, lite=True)
+            c04(3, perm, tuple(by_id[i] for i in perm), "thorough", "fault", est=900, lite=True, klass="best")
 # the final chunk may have any size (well-formed set; total != 56 so the slice decoder rejects the payload)
 for lens_by_id in ((28, 24), (24, 28), (3, 28), (28, 1)):
     for perm in _it.permutations(range(2)):
@@ -644,3 +648,9 @@ for (bk, ch, wire, sched) in ((0, 0, 4, "thorough"), (6, 31, 255, "thorough")):
         funcs=["alpha16::aw_map::TpcWirePosition::try_new (match on run_number + lazy_static HashMap lookup, hasher seed fixed by a stub)"],
         witnesses=["first-run-with-a-map"], sched=sched, klass="best", stub=RS_STUB,
         params={"board_row": bk, "channel": ch, "run": "all 2^32", "expected_wire": wire})
+
+# C01: the non-ASCII screening of the name parsers (string slicing on a char boundary) in the quick tier
+for pn, P in (("adc16", 0), ("adc32", 1), ("padwing", 3)):
+    add(name="c01_name_utf8_%s_4" % pn, prop="C01", crate="det", expr="crate::c08::name_utf8::<4, %d>" % P, unwind=10, unwindset=NAME_LOOPS,
+        cap_s=1200, mem_gb=6, est_s=150, family="name_utf8", funcs=NAME_FUNCS[:1], witnesses=["non-ascii-string-parsed"],
+        sched="always" if pn == "adc16" else "pool", params={"parser": pn, "bytes": 4, "alphabet": "all valid UTF-8"})
